@@ -44,7 +44,7 @@ def fa_cfg(maxlen, export):
 
 def ac_cfg(lb, prefill, depth, maxlen, multi, q, export):
     t = lambda b: "TRUE" if b else "FALSE"
-    return ("SPECIFICATION Spec\nVIEW View\nCONSTRAINT Depth\nCHECK_DEADLOCK FALSE\n"
+    return ("SPECIFICATION %s\nVIEW View\nCONSTRAINT Depth\nCHECK_DEADLOCK FALSE\n" % ("Spec" if export else "SpecM") +
             "CONSTANTS LB = %d Prefill = %d MaxDepth = %d MaxLen = %d MaxMulti = %d QLookback = %s Export = %s\n"
             % (lb, prefill, depth, maxlen, multi, t(q), t(export))
             + ("" if export else "INVARIANT StrictlyIncreasing\nINVARIANT AddOK\nINVARIANT MultiOK\nINVARIANT NoErrorOnStored\n"))
@@ -241,11 +241,11 @@ def run(ctx):
     tid += 1
     traces.append({"id": tid, "hdr": {"src": "T-fill", "tf": "1m", "init": []}, "ev": ev})
     # ------------------------------------------------------------ M: add_candle
-    insts = ctx.pick([(2, 0, 6, 5, 3), (20, 22, 2, 26, 2)], [(2, 0, 7, 6, 3), (3, 0, 6, 6, 2), (20, 22, 3, 26, 2)])
+    insts = ctx.pick([(2, 0, 6, 5, 3), (20, 22, 2, 26, 2)], [(2, 0, 7, 6, 3), (3, 0, 6, 6, 2), (20, 22, 2, 26, 3), (20, 22, 3, 26, 0)])
     jobs, labels = [], []
     for inst in insts:
         for q in (False, True):
-            jobs.append(dict(module="AddCandle", cfg_text=ac_cfg(*inst, q=q, export=False), workers=4, coverage=not q, timeout=1200))
+            jobs.append(dict(module="AddCandle", cfg_text=ac_cfg(*inst, q=q, export=False), workers=(1 if q else 4), coverage=not q, timeout=1200))
             labels.append((inst, q))
         jobs.append(dict(module="AddCandle", cfg_text=ac_cfg(*inst, q=True, export=True), workers=1, timeout=1200))
         labels.append((inst, "export"))
@@ -258,6 +258,10 @@ def run(ctx):
             exports.append((inst, r))
             continue
         ctx.add_tlc(r, lab)
+        if q is False and not r.violation:
+            for a in (("Add", "Multi") if inst[4] else ("Add",)):
+                if r.coverage.get(a, (0, 0))[1] == 0:
+                    raise Machinery("vacuity: action %s never taken in %s" % (a, lab))
         if q is False and r.violation:
             raise Machinery("AddCandle.tla (repaired) violates %s for %r\n%s" % (r.violation["name"], inst, r.violation["trace"][:2500]))
         if q is True:
@@ -272,8 +276,9 @@ def run(ctx):
         lb, prefill = inst[0], inst[1]
         edges = [json.loads(e[1]) for e in tlc.tagged(r, "EDGE")]
         n_edges += len(edges)
-        if ctx.quick and len(edges) > 6000:
-            edges = rng.sample(edges, 6000)
+        cap = ctx.pick(6000, 25000)
+        if len(edges) > cap:
+            edges = rng.sample(edges, cap)
         for idx, e in enumerate(edges):
             hist = e["hist"]
             for tf in (("1m", "5m") if idx % 4 == 0 and not any(h["k"] == "multi" for h in hist) else ("1m",)):
@@ -290,7 +295,7 @@ def run(ctx):
                     ctx.nontrivial.add(("R-add", tf, prefill, json.dumps(hist)))
         if edges:
             samples.append({"kind": "R: AddCandle.tla witness on a real CandlesState (prefill %d rows)" % prefill,
-                            "hist": edges[len(edges) // 2]["hist"], "expected_post": edges[len(edges) // 2]["post"][-6:]})
+                            "hist": edges[len(edges) // 2]["hist"], "expected_post_tail": edges[len(edges) // 2]["post"]})
     n_r = tid - 2
     ctx.log("add: %d model transitions, %d replays" % (n_edges, n_r))
     # ------------------------------------------------------------ T: random add sequences (>= 22 rows)
